@@ -19,7 +19,10 @@ def exclMiddleware : List (String × String) :=
   [("Router", "Use"), ("Router", "NoRoute"), ("Router", "SetObservabilityRecorder"), ("Group", "Use")]
 
 /-- the `route.Registrar` bridge and `Route.RegisterRoute`: called by the registration functions and by `SetName`
-    after their own check; `enqueueRoute` re-checks under the mutex (K12d) -/
+    after their own check; `enqueueRoute` re-checks under the mutex (K12e). They are EXPORTED (the interface lives in
+    package route) and unguarded: a direct call of `AddRouteToTree` / `AddVersionRoute` after serving began is accepted and
+    the route is served — OPEN finding K12f (`known_findings.d/C12.jsonl`, probe `c12b-*`, `Rivaas.C12.late_bridge_call_asis`);
+    they stay on this list so that the finding is reported once, by its probe, and not as a broken obligation -/
 def exclRegistrarBridge : List (String × String) :=
   [("Router", "AddPendingRoute"), ("Router", "RegisterRouteNow"), ("Router", "AddRouteToTree"), ("Router", "AddVersionRoute"),
    ("Router", "RegisterNamedRoute"), ("Router", "StoreRouteInfo"), ("Route", "RegisterRoute")]
